@@ -487,11 +487,18 @@ def random_history(g, rng, depth, bytes_choices):
 
 # ------------------------------------------------------------------ direct predicates
 def check_history(toks, steps, lays):
+    fails, known = [], {}
+    try:
+        _check_history(toks, steps, lays, fails, known)
+    except Exception as e:      # the implementation left the domain the expectations are written for
+        fails.append(('diverged', len(fails), 'expectation could not be evaluated: ' + repr(e)))
+    return fails, known
+
+
+def _check_history(toks, steps, lays, fails, known):
     """Evaluate the property step by step on the implementation's own observations.
     steps[k] = '<res>#<obs>', lays[k] = layout string.  Returns (failures, findings) where a
     failure is (category, step, detail) and findings is a set of known-finding ids."""
-    fails = []
-    known = {}
     prev = {}
     prev_lay = {}
     pend = {}
